@@ -185,6 +185,17 @@ def _replay(fn):
     sh = _shadow_name(fn)
     A = lambda a: norm(fully_expanded(a, fn))
     shadow = real = None
+    # the new content written as an expression: list(self) + [v] is append(v), list(self) + vs is extend(vs)
+    for cl in _calls(fn):
+        if isinstance(cl.func, ast.Name) and cl.func.id == "ModelingUpdate" and cl.args and isinstance(cl.args[0], ast.List) \
+                and cl.args[0].elts and isinstance(cl.args[0].elts[0], ast.List) and len(cl.args[0].elts[0].elts) == 2:
+            x = fully_expanded(cl.args[0].elts[0].elts[1], fn)
+            if isinstance(x, ast.BinOp) and isinstance(x.op, ast.Add) and norm(x.left) in ("list(self)", "self.copy()", "[*self]"):
+                if isinstance(x.right, ast.List) and len(x.right.elts) == 1:
+                    shadow = ("append", [norm(x.right.elts[0])])
+                else:
+                    shadow = ("extend", [norm(x.right.args[0] if isinstance(x.right, ast.Call) and norm(x.right.func) == "list"
+                                              and x.right.args else x.right)])
     for n in ast.walk(fn):
         if isinstance(n, ast.Call) and isinstance(n.func, ast.Attribute) and norm(n.func.value) == sh:
             shadow = (n.func.attr, [A(a) for a in n.args])
@@ -242,7 +253,7 @@ def r_listsib(E):
                 W0 = "ContextualModelingObjectAttribute("
                 rargs = [a[len(W0):-1] if a.startswith(W0) and a.endswith(")") else a for a in real[1]]
                 ok = shadow[0] == real[0] == m and sargs == rargs
-        if ok and _shadow_name(fn) not in new_arg and m != "clear":
+        if ok and _shadow_name(fn) not in new_arg and "list(self) +" not in new_arg and m != "clear":
             ok = False
         if not ok:
             res.findings.append(Finding(
